@@ -209,6 +209,10 @@ class Driver:
     def node_on(self, name):
         return self.nodes[name].operating_state.name == "ON"
 
+    def target_listening(self):
+        """could the server have been told of a client-side logoff? (powered on and its SSH service running)"""
+        return self.node_on(SERVER) and self.srv_term.operating_state.name == "RUNNING"
+
     def has(self, folder):
         return any(f.name == folder for f in self.server.file_system.folders.values())
 
@@ -468,7 +472,7 @@ class Driver:
             if h is None:
                 self.cov.inc("skipped_ops")
                 return "skip"
-            heard = self.node_on(SERVER) and (s.client not in self.nodes or self.node_on(s.client))
+            heard = self.target_listening() and (s.client not in self.nodes or self.node_on(s.client))
             was_active = bool(h.is_active)
             ok = bool(h.disconnect())
             if was_active or ok:
@@ -481,7 +485,7 @@ class Driver:
         return st
 
     def op_logoffreq(self, client):
-        heard_base = self.node_on(SERVER) and self.node_on(client)
+        heard_base = self.target_listening() and self.node_on(client)
         st = self.apply(form("node-session-remote-logoff", node_name=client, remote_ip=SERVER_IP))
         cterm = self.nodes[client].software_manager.software["terminal"]
         first = next((u for t, u in self.obs_disc if t is cterm), None)
@@ -496,10 +500,15 @@ class Driver:
         self.n_pw += 1
         new = f"{user}-n{self.n_pw}"
         open_before = [s.ordinal for s in self.model.possibly_open() if s.user == user]
+        # classification only (never judgement): position of each session of the user in the server's session table
+        table = [self.uuid2ord.get(sid) for sid, rs in self.usm.remote_sessions.items() if rs.user.username == user]
         st = self.apply(form("node-account-change-password", node_name=SERVER, username=user, current_password=old, new_password=new))
         r = self.model.on_change_password(user, old, new, st == "success")
         if r["diag"]:
             self.cov.hit("diag", r["diag"])
+        for k in r["ended"]:
+            self.model.sessions[k].ended_detail = ("first-session-of-user" if table and table[0] == k else
+                                                   "later-session-of-user" if k in table else "session-not-in-server-table")
         if st == "success":
             self.cov.inc("password_changes")
             self.cov.hit("password_change_x_open_sessions_of_user", str(min(len(open_before), 3)))
